@@ -1343,6 +1343,7 @@ void f_bind (void) {
     memcpy (new_fp, old_fp, sizeof (funptr_hdr_t) + sizeof (functional_t));
   else
     memcpy (new_fp, old_fp, sizeof (funptr_hdr_t) + sizeof (local_ptr_t));
+  new_fp->hdr.ref = 1;		/* the copy has one holder (the stack), whatever the original had */
   new_fp->hdr.owner = ob;	/* one ref from being on stack */
   if (new_fp->hdr.args)
     new_fp->hdr.args->ref++;
